@@ -42,6 +42,10 @@ def lex_tokens(which, text):
     return toks
 
 
+# the days only leap years have, month ends, century ends
+LEAP_DAYS = [dt.date(2024, 2, 29), dt.date(2000, 2, 29), dt.date(2096, 2, 29), dt.date(2024, 12, 31), dt.date(2099, 12, 31), dt.date(2000, 1, 1)]
+
+
 def run(oc, tier, seed):
     rng = random.Random(seed)
     eng = lib.Engine()
@@ -105,7 +109,8 @@ def run(oc, tier, seed):
     for h in range(n_hist):
         d = tempfile.mkdtemp(prefix="c07_")
         try:
-            dates = [dt.date(rng.choice([2024, 2000, 2099, 2031]), rng.randint(1, 12), rng.randint(1, 28))
+            dates = [rng.choice(LEAP_DAYS) if rng.random() < 0.12 else
+                     dt.date(rng.choice([2024, 2000, 2099, 2031]), rng.randint(1, 12), rng.randint(1, 28))
                      for _ in range(rng.randint(1, 4))]
             store = {}
             for dd in dates:
@@ -193,7 +198,8 @@ def run(oc, tier, seed):
     if tier == "thorough":
         picks = chain
     for suf in picks:
-        dd = dt.date(rng.choice([2000, 2024, 2069, 2099]), rng.randint(1, 12), rng.randint(1, 28))
+        dd = (rng.choice(LEAP_DAYS) if rng.random() < 0.1 else
+              dt.date(rng.choice([2000, 2024, 2069, 2099]), rng.randint(1, 12), rng.randint(1, 28)))
         z = dd.strftime("%Y%m%d")[2:] + "#" + suf
         oc.evaluations += 1
         for which in ("file", "query"):
@@ -230,10 +236,10 @@ def run(oc, tier, seed):
             zids = []
             lines = ["# page", ""]
             for i, suf in enumerate(sufs):
-                z = "2405%02d#%s" % (rng.randint(1, 28), suf)
+                z = "%s#%s" % (rng.choice(["2405%02d" % rng.randint(1, 28), "240229", "000229", "241231", "000101"]), suf)
                 zids.append(z)
                 kind = rng.choice(["-", "o", "x P1", "o P5", "<", ">", "~"])
-                md = rng.choice(["", "240601 "])
+                md = rng.choice(["", "240601 ", "240229 ", "960229 "])
                 lines.append("%s %s%s note number %d" % (kind, md, z, i))
             Path(d, "a.zo").write_text("\n".join(lines) + "\n")
             with contextlib.redirect_stdout(io.StringIO()), contextlib.redirect_stderr(io.StringIO()):
